@@ -379,6 +379,9 @@ def judge(pid, beh, obs):
     if pid == "C15":
         if sorted(obs["docs"]) != ideal_files:
             return "viol", ideal_files, sorted(obs["docs"]), "documented files differ from the non-excluded files"
+        if hasout and obs["out_files"] != expected_out_files(beh):
+            # what is on disk at the end: the pages and indexes of exactly the non-excluded files and directories
+            return "viol", expected_out_files(beh), obs["out_files"], "the files under the output directory are not those of the non-excluded files and directories"
         exc = set("/".join(d) for d in beh["excluded"])
         bad = [r for r in obs["walk_roots"] + [s for s in obs["scandirs"] if s != "."] if r in exc]
         if bad:
@@ -605,6 +608,16 @@ def c18_case(beh, sandbox, n):
         inp = os.path.join(work, "in")
         os.makedirs(inp)
         materialise(beh["tree"], inp)
+        if n % 4 == 1:
+            # one large module (64 KiB of comments after its commands): whatever size-dependent route it takes, the
+            # run writes only below the output directory
+            for r, ds, fs in os.walk(inp):
+                for f in sorted(fs):
+                    if f.endswith(".cmake") and f not in NOTHING_TO_DOCUMENT and f != "l1.cmake":
+                        with open(os.path.join(r, f), "a") as fh:
+                            fh.write("# padding line of a large module\n" * 2048)
+                        break
+                break
         with open(os.path.join(work, "bystander.txt"), "w") as fh:
             fh.write("keep me\n")
         os.makedirs(os.path.join(root, "home"))
